@@ -17,7 +17,7 @@ VERIF = ku.VERIF
 REPO = os.environ.get('VERIF_REPO', '/repo')
 SCRATCH_ROOT = os.environ.get('VERIF_SCRATCH', '/var/tmp')
 EVIDENCE_DIR = os.environ.get('VERIF_EVIDENCE_DIR') or os.path.join(VERIF, 'evidence')  # override only for bin/selftest runs on scratch copies
-REPLAY_DIR = os.path.join(VERIF, 'replays')
+REPLAY_DIR = os.environ.get('VERIF_REPLAY_DIR') or os.path.join(VERIF, 'replays')
 KNOWN_FINDINGS = os.path.join(VERIF, 'known-findings.txt')
 
 
